@@ -213,7 +213,7 @@ def shrink(sub, case):
 
 IDENTS = ["x", "y", "local_y", "self.global_state_y", "dagrt_state%dagrt_refcnt_p_last_rhs_y", "i", "tmp_0",
           "lploc_temp", "self._functions.func_f", "n", "result"]
-OPS = ["+", "-", "*", "/", "=", "==", "<=", "**", ".and.", ".ne.", "=>", "::", ","]
+OPS = ["+", "-", "*", "/", "=", "==", "<=", "**", ".and.", ".ne.", "=>", "::", ",", "!=", "/=", "!=", "%"]
 WORDS = ["alpha", "beta", "failed", "to", "allocate", "x", "a", "0", "state", "C:\\dir\\", "\\", "it's", '3"', "don't", '"q"']
 
 
@@ -285,6 +285,9 @@ def line_cases(glued_strings):
         c = dict(c)
         words = c.pop("comment")
         mark = "#" if c["target"] == "python" else "!"
+        if c["target"] == "fortran":
+            # "!=" is Python's; in a Fortran line the "!" would start a comment
+            c["line"] = c["line"].replace("!=", "/=")
         if any(split_comment(t, c["target"])[1] is not None for t in [c["line"]]):
             return c
         if words is not None:
@@ -297,7 +300,7 @@ def python_stmt_cases(glued_strings):
     name = st.sampled_from(["x", "local_y", "self.global_state_y", "self.t", "local_tmp_0"])
     s = string_literals()
     atom = st.one_of(name, name, st.integers(0, 9999).map(str), s, st.just("self._numpy.abs(local_y)"))
-    op = st.sampled_from([" + ", " * ", " - ", " / ", " == ", " < "])
+    op = st.sampled_from([" + ", " * ", " - ", " / ", " == ", " < ", " != ", " != "])
     expr = st.lists(atom, min_size=1, max_size=8).flatmap(
         lambda atoms: st.lists(op, min_size=len(atoms) - 1, max_size=len(atoms) - 1).map(
             lambda ops: "".join(a + (ops[i] if i < len(ops) else "") for i, a in enumerate(atoms))))
@@ -309,8 +312,10 @@ def python_stmt_cases(glued_strings):
     call = st.tuples(name, st.lists(expr, min_size=1, max_size=4)).map(
         lambda t: "%s = self._functions.f(%s)" % (t[0], ", ".join(t[1])))
     if_ = expr.map(lambda e: "if %s: pass" % e)
+    comment = st.one_of(st.just(""), st.just(""), st.lists(st.sampled_from(WORDS[:9] + ["it's", "!", "!="]), min_size=1, max_size=10)
+                        .map(lambda ws: "  # " + " ".join(ws)))
     return st.fixed_dictionaries(dict(
-        line=st.one_of(assign, raise_, yield_, call, if_),
+        line=st.tuples(st.one_of(assign, raise_, yield_, call, if_), comment).map(lambda t: t[0] + t[1]),
         level=st.integers(0, 5),
         width=st.one_of(st.integers(12, 100), st.just(80)),
         indentation=st.just("    "),
